@@ -489,12 +489,16 @@ def main(argv):
             print("--- model / spec ---\n" + model_out[-4000:])
 
     # 5. decide
+    known_seen = set()
+
     def report(kind, item, extra_text=None):
         cid = item["key"].rsplit(".", 1)[0]
         km = known_match(known, prop, cid, item["name"])
         if km and kind in ("monitor", "cert"):
-            known_lines.append("KNOWN-FINDING: property=%s %s (%s, case %s)" % (prop, km.get("text", ""), item["name"], cid))
-            return
+            if id(km) not in known_seen:
+                known_seen.add(id(km))
+                known_lines.append("KNOWN-FINDING: property=%s %s (%s, case %s)" % (prop, km.get("text", ""), item["name"], cid))
+            return False
         ctext = extract_case(extra_text or text, cid)
         mt = re.match(r"twin (\S+) vs (\S+):", item.get("why", ""))
         if mt:
@@ -505,26 +509,29 @@ def main(argv):
                    "seed": seed, "replay_cmd": "./check %s --replay <this file>" % prop}
         rp = write_replay(prop, "%s_%s_%s" % (kind, item["name"], re.sub(r"\W", "_", cid)), payload)
         violations.append((rp, kind))
+        return True
 
     if an is not None:
+        # one replay per routine name; failures explained by a listed finding do not use up that slot,
+        # so a different violation of the same routine is still reported
         seen = set()
         for item in an["monitor"]:
             if (item["name"]) in seen:
                 continue
-            seen.add(item["name"])
-            report("monitor", item)
+            if report("monitor", item):
+                seen.add(item["name"])
         for item in an["cert"]:
             if ("c", item["name"]) in seen:
                 continue
-            seen.add(("c", item["name"]))
-            report("cert", item)
+            if report("cert", item):
+                seen.add(("c", item["name"]))
         direct = [v for v in violations]
         broken_corr = an["corr"] or an["missing"]
         broken_proof = bool(aud["problems"])
         if crashed:
             rp = write_replay(prop, "crash", {"property": prop, "kind": "crash", "message": crashed, "case": text})
             violations.append((rp, "crash"))
-        if (broken_corr or broken_proof) and not direct and not known_lines:
+        if (broken_corr or broken_proof) and not direct:
             # search harder for a concrete failing input of the property itself
             found = False
             nb = 6 if thorough else 3
@@ -532,11 +539,11 @@ def main(argv):
                 t2, _, _, _ = P["gen"](seed * 1000 + 17 + k, tier)
                 io, mo, cr = execute(t2)
                 a2 = analyse(io, mo)
-                if a2["monitor"] or a2["cert"]:
-                    item = (a2["monitor"] + a2["cert"])[0]
-                    kind = "monitor" if a2["monitor"] else "cert"
-                    report(kind, item, t2)
-                    found = True
+                for kind in ("monitor", "cert"):
+                    for item in a2[kind]:
+                        if not found and report(kind, item, t2):
+                            found = True
+                if found:
                     break
             if not found:
                 detail = {"property": prop, "kind": "unproved",
